@@ -33,7 +33,12 @@ def setup_imports():
     if VERIF not in sys.path:
         sys.path.insert(0, VERIF)
     import logging
+    import warnings
     logging.disable(logging.CRITICAL)
+    # executions are abandoned mid-flight (loop closed with tasks pending): the garbage
+    # collector's complaints about those coroutines are noise, not results
+    warnings.simplefilter('ignore', RuntimeWarning)
+    sys.unraisablehook = lambda *a: None
 
 
 def jsonable(obj):
